@@ -21,10 +21,14 @@ func WithRepeat(print func(string), interval gotime.Duration, fn func(int64) app
 
 	// Call handler function repetitively
 	print("\033[2J") // Initial screen clearing
+	interval = verifInterval(interval)
 	ticker := gotime.NewTicker(interval)
 	defer ticker.Stop()
 	secondsCounter := int64(0) // Choose large type because of overflow
 	for ; true; <-ticker.C {
+		if verifTick(secondsCounter) {
+			return nil
+		}
 		secondsCounter += 1
 		print("\033[H\033[J") // Cursor reset
 		err := fn(secondsCounter)
